@@ -43,6 +43,9 @@ func dynFocusSchema(r *rand.Rand) *schema.BodySchema {
 		return pick(r, []*schema.BodyExtensions{nil, {Count: true}, {SelfRefs: true}, {DynamicBlocks: true}, {ForEach: true}, {}})
 	}
 	inner := func() *schema.BlockSchema {
+		if r.Intn(5) == 0 {
+			return &schema.BlockSchema{MaxItems: uint64(r.Intn(2))} // a block type without a body schema
+		}
 		return &schema.BlockSchema{MinItems: uint64(r.Intn(2)), Body: &schema.BodySchema{
 			Extensions: ext(),
 			Attributes: map[string]*schema.AttributeSchema{"p": {IsOptional: true, Constraint: schema.LiteralType{Type: cty.String}}},
